@@ -174,7 +174,7 @@ def task(item):
 
     gens = [layouts.file_orders(model), layouts.def_orders(model), layouts.splits(model)]
     if text_level:
-        gens += [layouts.comment_variants(model), layouts.continuation_variants(model)]
+        gens += [layouts.comment_variants(model), layouts.continuation_variants(model), layouts.example_map_variants(model)]
     for g in gens:
         for kind, label, specs, vm in g:
             n += 1
